@@ -49,7 +49,11 @@ CHECKS["C16"] = ("proof", "generator-level rules over the MIR of the proc-macro 
                  "For all derive inputs: single-valued attributes are only set under a dominating 'already set => Err' test on a witness that merge maintains, parsers write attributes only through merge, every #[deserr] attribute is parsed and merged with `?`, unknown names / rename_all values / trailing tokens return Err, validate_container_attributes rejects the listed combinations and dominates all use, unsupported shapes lead only to compile errors, the macro's panic sites are discharged. 100 (quick) / 320 (thorough) poisoned derive inputs must be rejected by a derive-issued diagnostic while their twins compile.",
                  TB + "; rustc's verdict on the witness programs; syn invariants (named fields have identifiers, parse_quote! of fixed templates); decides the listed causes, not every conceivable unsupported input", "§5 C16")
 
-NOT_YET = {p: 'check not yet built in this revision of /verif (construction order in DESIGN.md §8); will be claimed when its rule set is armed' for p in ['C05', 'C13', 'C14'] + ['C%02d' % i for i in range(17, 21)]}
+CHECKS["C05"] = ("other", "dispatch/table agreement, cast and callee allow-lists, provenance of Ok payloads and of format arguments over the MIR of the 30 scalar impls",
+                 "Decides three structural clauses for every scalar impl: the Value kinds with an arm equal the accepted list of the single kind report on the fall-through arm; no lossy conversion exists and every integer/NonZero Ok is or_else(TryFrom::<Self>::try_from(the matched payload)) (bool/String unchanged, () only on null, char only when the second next() is None, floats only cast the payload); the domain report's format arguments are the payload and the rustc-evaluated constant <Self>::MAX / MIN of the right arm, NonZero zero arms are guarded by == 0. Numeric exactness is then core's TryFrom (trusted).",
+                 TB + "; core TryFrom/`as` semantics; message wording not decided; 64-bit usize", "§5 C05")
+
+NOT_YET = {p: 'check not yet built in this revision of /verif (construction order in DESIGN.md §8); will be claimed when its rule set is armed' for p in ['C13', 'C14'] + ['C%02d' % i for i in range(17, 21)]}
 
 
 def main():
